@@ -41,8 +41,10 @@ RESULTS = {
     "C14-unzip-ready-when-only-one-sink-ready": ("C14", [("C14", "quick", "VIOLATION", "kani ov_sink unzip::vk_harness::unzip_sink_step clause C14:unzip_ready_iff_both_ready")]),
     "C15-merge-source-early-return-skips-cleanup": ("C15", [("C15", "quick", "VIOLATION", "kani vk_merge merge_one_poll_n2/n3/n4 clauses C15:all_entries_some_after_poll, C15:ended_sources_and_only_those_removed (6 violations)")]),
     "C13-join-early-end-skips-rhs": ("C13", [("C13", "quick", "VIOLATION", "kani ov_pipes symmetric_hash_join_history_set_trace / _multiset_trace clause C13:join_ends_only_when_both_sides_ended")]),
-    "C13-half-set-state-build-occupied-returns-false": ("C13", [("C13", "thorough", "missed", "the changed branch (a second value for an existing key) needs a second table operation on the real HalfSetJoinState, outside CBMC's reach; the one-pair harness cannot see it, and the orchestration harness runs against the reference state")]),
-    "C17-union-find-path-halving-returns-grandparent": ("C17", [("C17", "quick", "UNDECIDED", "find was rewritten (iterative path halving): the anchors of the inserted proof are gone, exit 2; no Kani twin exists for slotmap, so the wrong result is not decided")]),
+    "C13-half-set-state-build-occupied-returns-false": ("C13", [("C13", "thorough", "missed", "first run: the changed branch (a second value for an existing key) needs a second table operation on the real HalfSetJoinState, outside CBMC's reach on the real hashbrown table"),
+                                                                ("C13", "quick", "VIOLATION", "kani vk_join (added because of this seed: the real state files over contract doubles of the hash map and SmallVec) pull::half_join_state::harness::half_set_builds_b2_same_key clause C13:build_reports_whether_the_pair_is_new_for_sets_and_always_true_for_multisets")]),
+    "C17-union-find-path-halving-returns-grandparent": ("C17", [("C17", "quick", "UNDECIDED", "first run: find was rewritten (iterative path halving): the anchors of the inserted Verus proof are gone, exit 2"),
+                                                                ("C17", "quick", "VIOLATION", "kani vk_uf (bounded twin over a SecondaryMap contract double, added because of this seed) harness::uf_same_set_is_closure_n3 / uf_find_is_canonical_n3 / uf_union_keeps_first_representative_n3 (7 violations, with replayed inputs); the Verus unit still reports undecided")]),
     "C17-subgraph-merge-window-excludes-start": ("C17", [("C17", "quick", "missed", "SubgraphMerge::try_merge is in the part of C17 the claim lists as NOT covered")]),
     "C10-counted-hash-set-eq-ignores-counts": ("C10", [("C10", "quick", "missed", "VariadicCountedHashSet is hashbrown-backed: outside CBMC's reach, documented as not covered (DESIGN.md section 5, C10)")]),
 }
